@@ -13,5 +13,4 @@ void free_prog (program_t *p, int f) { (void) p; (void) f; VERIF_UNREACHABLE ("f
 object_t *lookup_object_hash (const char *s) { (void) s; VERIF_UNREACHABLE ("lookup_object_hash"); return 0; }
 #ifdef VERIF_CBMC
 int whashstr (const char *s, int n) { unsigned h = 0; int i; for (i = 0; i < n && s[i]; i++) h = h * 2 + (unsigned char) s[i]; return (int) (h & 0x7fff); }
-int sprintf (char *buf, const char *fmt, ...) { (void) buf; (void) fmt; VERIF_UNREACHABLE ("sprintf"); return 0; }
 #endif
